@@ -187,6 +187,10 @@ def main(cid, tier, seed, replay=None, as_json=False, nproc=None, max_confirm=4)
     harness_errors = []
     confirmed = 0
     for key, (case, f, count) in by_key.items():
+        if key.startswith("harness-"):
+            # the check could not decide this case (non-converged SCF, alphabet on a kink, ...): never a VIOLATION
+            harness_errors.append("%s: %s (%s)" % (key, f.get("msg", ""), label(case)))
+            continue
         kf = match_known(known, cid, key)
         if kf is not None:
             kk = kf.get("key", "")
